@@ -687,6 +687,49 @@ def build_C09(ctx, tier, rnd):
     return build_life(ctx, tier, rnd, labels=['q', 's', 'ok', 'fail', 'R', 'u1', 'u2', 'u3', 'rb1', 'rb5', 'ck2', 'udl3', 'uperr'])
 
 
+C09_RULE = ('exhaustive depth-k continuations of 7 lifecycle prefixes incl. lower-numbered installs and installs during boot + random walks; updates that fail '
+            'INSIDE the install (a file where patches/<n> must be a directory) from states with a pending patch: the selection and its artifact must stay; non-trivial as C03')
+
+
+def run_C09(pid, tier, seed, model_ok=True):
+    a = run_lifecycle(pid, tier, seed, build_C09, [monitors.mon_C09, monitors.mon_healthy], trig_life, C09_RULE, model_ok=model_ok)
+    # "failed or no-op updates" include the ones that fail after the download verified, while the artifact is being moved into
+    # place; the model has no word for a file squatting on patches/<n>, so this stream is judged on the implementation only
+    ctx = Ctx(seed=seed)
+    work = os.path.join(CACHE, 'work-%s-fi-%d' % (pid, os.getpid()))
+    try:
+        al = gen.Alphabet(ctx)
+        header = ctx.header()
+        hs = []
+        for pk in ('good1pend2', 'good1boot2', 'pend1', 'good2pend1', 'good1'):
+            for n in (1, 2, 3):
+                for tail in (['q'], ['R', 'q'], ['s', 'ok', 'q']):
+                    hs.append(('fi_%s_%d_%s' % (pk, n, '.'.join(tail)), [al.init] + al.seq(PFX[pk]) + ['op nextnum', 'op dmg artisfile %d' % n, al.ops['u%d' % n][0], 'op nextnum'] + al.seq(tail)))
+        _, impl, ex = run_both(header, hs, work, impl_only=True)
+        a['extras'] += [x for x in ex if 'PANIC' in x or 'CRASH' in x]
+        nfi = 0
+        for name, ops in hs:
+            tr = impl.get(name)
+            if tr is None or len(tr) != len(ops):
+                a['extras'].append('C09 failing-install stream: incomplete trace for %s' % name)
+                continue
+            st = [parse_line(l) for l in tr]
+            k = next(i for i, o in enumerate(ops) if ' dmg artisfile ' in o)
+            sel, n = st[k - 1]['out'], int(ops[k].split()[-1])
+            had = st[k - 1]['arts'].get(int(sel)) if sel != '0' else None
+            nfi += 1
+            if sel != '0' and int(sel) != n and st[k + 1]['out'] != '1':
+                if st[k + 2]['out'] != sel or st[k + 2]['arts'].get(int(sel)) != had:
+                    a['monitor_fail'].append((name, k + 2, 'C09: patch %s was selected, an update to patch %d failed (status %s) and nothing concerned %s, yet the selection is now %s (artifact %s -> %s)' % (
+                        sel, n, st[k + 1]['out'], sel, st[k + 2]['out'], had, st[k + 2]['arts'].get(int(sel))), ops, header))
+        a['evaluations'] += nfi
+        a['dist'] = dict(a.get('dist', {}), updates_failing_inside_the_install=nfi)
+        return a
+    finally:
+        ctx.cleanup()
+        shutil.rmtree(work, ignore_errors=True)
+
+
 def build_C03(ctx, tier, rnd):
     return build_life(ctx, tier, rnd, labels=['q', 's', 'ok', 'fail', 'R', 'u1', 'u2', 'u3', 'rb2', 'rb5', 'ck2', 'dD2', 'dT1'])
 
@@ -902,7 +945,8 @@ def run_C16(pid, tier, seed, model_ok=True):
             nlo = 1
             nleft[0] += 1
         if im.returncode != 0 or len(itr) != 4:
-            extras.append('implementation run failed for %s: rc=%d %s' % (name, im.returncode, im.stderr[-300:]))
+            fails.append((name, 1, 'C16: the patch the tool built for (%d -> %d bytes) could not be applied through the library at all (run ended rc=%d after %d of 4 results) %s' % (
+                len(base), len(new), im.returncode, len(itr), (im.stdout + im.stderr)[-200:].replace('\n', ' ')), ops, header))
             continue
         st = [parse_line(l) for l in itr]
         want = art_tag(new)
@@ -1034,6 +1078,60 @@ def sched_event_faults(post, thread_ops):
         return ['C17/C11: %d update(s) of the interleaving reported installed (outputs %s) but %d download event(s) were sent (%s)' % (
             inst, post['out'], ndl, [x for x in post['net'] if x.startswith('E:')])]
     return []
+
+
+C18_RULE = ('exhaustive depth-k lifecycle histories with current/next queries interleaved + random walks; every interleaving of a launch start / success report with an '
+            'update that rolls back unrelated numbers (scheduler-controlled real threads): the current patch is the one handed to the engine, also after a restart; '
+            'non-trivial = distinct (state, current-patch query answering non-zero)')
+
+
+def run_C18(pid, tier, seed, model_ok=True):
+    a = run_lifecycle(pid, tier, seed, build_C18, [monitors.mon_C18], trig_cur, C18_RULE, model_ok=model_ok)
+    # "installing, checking or rolling back other patches never changes it" while those run on another thread
+    ctx = Ctx(seed=seed)
+    work = os.path.join(CACHE, 'work-%s-sch-%d' % (pid, os.getpid()))
+    try:
+        al = gen.Alphabet(ctx)
+        header = [h for h in ctx.header() if h != 'dls on']
+        hs, meta = [], {}
+        t1s = {'start': ['op start'], 'start_ok': ['op start', 'op success']}
+        for stt, handed in (('good1pend2', 2), ('pend1', 1), ('good1', 1)):
+            for uk in ('rb5', 'rb3', 'upnone', 'uperr'):     # updates that install nothing: what is handed out does not depend on the order
+                for tk, t1 in t1s.items():
+                    orders = sched_orders(len(t1))
+                    if tier == 'quick':
+                        orders = orders[::2]
+                    for oi, order in enumerate(orders):
+                        name = 'c18s_%s_%s_%s_%d' % (stt, uk, tk, oi)
+                        lines = [al.init] + al.seq(PFX[stt])
+                        hs.append((name, lines + ['t0 ' + al.ops[uk][0]] + ['t1 ' + x for x in t1] + ['order ' + order, 'op curnum', 'op kill', al.init, 'op curnum']))
+                        meta[name] = (len(lines), handed, tk, uk)
+        model, impl, ex = run_both(header, hs, work, impl_only=not model_ok)
+        a['extras'] += ex
+        if model_ok:
+            for (h, idx, ml, il) in diff_traces(model, impl):
+                a['divergences'].append((h, idx, ml, il, dict(hs)[h], header))
+        n = 0
+        for name, ops in hs:
+            tr = impl.get(name)
+            npre, handed, tk, uk = meta[name]
+            if tr is None or len(tr) != npre + 5:
+                a['extras'].append('C18 schedules: incomplete implementation trace for %s' % name)
+                continue
+            n += 1
+            cur_now = parse_line(tr[npre + 1])['out']
+            cur_after = parse_line(tr[npre + 4])['out']
+            if cur_now != str(handed):
+                a['monitor_fail'].append((name, len(ops) - 4, 'C18: patch %d was handed to the engine at launch start while an update (%s) ran on another thread; the reported current patch is %s' % (handed, uk, cur_now), ops, header))
+            if tk == 'start_ok' and cur_after != str(handed):
+                a['monitor_fail'].append((name, len(ops) - 1, 'C18: patch %d booted and was reported good while an update (%s) ran on another thread; after a restart the current patch is %s' % (handed, uk, cur_after), ops, header))
+        a['evaluations'] += n
+        a['dist'] = dict(a.get('dist', {}), launch_report_vs_update_schedules=n)
+        a['traces'] = a.get('traces', 0) + len(impl)
+        return a
+    finally:
+        ctx.cleanup()
+        shutil.rmtree(work, ignore_errors=True)
 
 
 def run_C17(pid, tier, seed, model_ok=True):
@@ -1686,7 +1784,7 @@ def run_C04(pid, tier, seed, model_ok=True):
                     break
                 res['fail'].append((k, lines, [x for x in r.stderr.splitlines() if 'SHIM FAIL' in x][-1:]))
             # ---- one failing READ (open of state.json / patches_state.json / an artifact for reading), execution continues.
-            # The model has no read steps: these runs are judged on the implementation only (no inclusion check).
+            # (the model's loadM / create_newM have read steps too: these runs take part in the inclusion check)
             res['rfail'] = []
             for k in range(0, 120):
                 wd = os.path.join(d, 'r%d' % k)
@@ -1759,11 +1857,11 @@ def run_C04(pid, tier, seed, model_ok=True):
                 evals += 1
                 st = state_of(lines[len(ops) - 1])
                 distinct.add((name, 'F', st))
-                if model_ok and 'READ' not in where and st not in res['model_fail']:
+                if model_ok and st not in res['model_fail']:
                     divs.append((name, len(ops) - 1, 'no model outcome of a failing step equals the real state (failing real step %d %s)' % (k, where), st, ops, header))
                 sts = [parse_line(l) for l in lines]
                 # patch selected afterwards, in this process and at the next launch
-                for j in range(len(ops), len(sts)):
+                for j in range(len(ops) - 1, len(sts)):     # the faulted call itself (if it is a query) and everything after it
                     out = sts[j]['out']
                     n = int(out) if out.isdigit() and out != '0' and (ops + tail)[j].endswith('nextnum') else None
                     if n is None:
@@ -1771,8 +1869,16 @@ def run_C04(pid, tier, seed, model_ok=True):
                     nb = pstate(sts[j])['nb']
                     art = sts[j]['arts'].get(n, '')
                     why = None
-                    if nb is None or nb['num'] != n or not art.startswith('F%d.' % nb['size']):
+                    if j == len(ops) - 1:
+                        # the faulted call itself: the state file may be stale (its write is what failed), so the answer is
+                        # judged against whichever record of that number is on disk before or after the call (selected or last good)
+                        recs = [r_ for stx in (sts[j], sts[j - 1]) for r_ in (pstate(stx)['nb'], pstate(stx)['lb'], pstate(stx)['cb']) if r_ and r_['num'] == n]
+                        if not any(art.startswith('F%d.' % r_['size']) for r_ in recs):
+                            why = 'not intact'
+                    elif nb is None or nb['num'] != n or not art.startswith('F%d.' % nb['size']):
                         why = 'not intact'
+                    if why:
+                        pass
                     elif n in bad_before:
                         why = 'banned before the failing call'
                     elif kinds[name] == 'relchange':
@@ -1818,6 +1924,113 @@ def judge_concurrent_init(ops, tr):
     elif req != [want]:
         out.append((len(ops) - 1, 'C14: init results %s, yet the configuration in use afterwards sends %s (expected %s)' % (res, req, want)))
     return out
+
+
+C07_RULE = ('10 signature variants x 4 configured keys x lifecycle states; same-size/different-size tampering x continuations; exhaustive + random walks under a key; '
+            'the model\'s base64 decoder against the library\'s engine on valid, unpadded, over-padded, stray-bit, url-safe, whitespace and non-ASCII strings; '
+            'non-trivial = distinct (state, query/start with a selection)')
+
+
+def fault_runs(header, name, ops, target_index, workdir, reads=True, maxk=60):
+    """Runs the history once per k with the k-th file-system call (mutating calls, and opens for reading when `reads`)
+    of its op number `target_index` (1-based among op lines) failing with EIO, execution continuing.
+    Returns [(k, out= lines, what failed)]."""
+    build_shim()
+    os.makedirs(workdir, exist_ok=True)
+    f = os.path.join(workdir, name + '.ops')
+    write_opfile(f, header, [(name, ops)])
+    res = []
+    nops = len([o for o in ops if o.startswith('op ')])
+    for k in range(maxk):
+        wd = os.path.join(workdir, '%s.f%d' % (name, k))
+        env = dict(os.environ, LD_PRELOAD=SHIM, UVH_CUT_OP=str(target_index), SHIM_FAIL=str(k))
+        if reads:
+            env['SHIM_READS'] = '1'
+        r = subprocess.run([UVH, 'replay', f, wd], capture_output=True, text=True, env=env)
+        shutil.rmtree(wd, ignore_errors=True)
+        hitl = [x for x in r.stderr.splitlines() if 'SHIM FAIL' in x][-1:]
+        if not hitl:
+            break
+        lines = [l for l in r.stdout.splitlines() if l.startswith('out=')]
+        res.append((k, lines if (r.returncode == 0 and len(lines) == nops) else None, hitl[0] + ((' | rc=%d %s' % (r.returncode, r.stdout[-200:])) if r.returncode else '')))
+    return res
+
+
+def run_C07(pid, tier, seed, model_ok=True):
+    a = run_lifecycle(pid, tier, seed, build_C07, [lambda c, o, s: monitors.mon_C01(c, o, s)], trig_handout, C07_RULE, model_ok=model_ok)
+    # which keys / signatures decode at all is decided by the MODEL now (Signing.b64_decode): tie it to the real engine
+    import base64 as B
+    rnd = random.Random(seed + 7)
+    strs = set(['', '=', '==', '====', 'A', 'AA', 'AAA', 'AAAA', 'AA==', 'AAA=', 'AB==', 'AAB=', 'A===', 'AA=A', '=AAA', 'QUJD\n', ' QUJD', 'QUJD ', 'QU JD', 'QUJ-', 'QUJ_',
+                'QUJD====', 'QQ==QQ==', 'QUJDQQ==', 'QUJDQQ', 'QUJDQ', 'é', 'QUJDé', KEY1, KEY1[:-1], KEY1 + '=', KEY1.rstrip('='), KEY2])
+    for _ in range(150 if tier == 'quick' else 3000):
+        raw = bytes(rnd.randrange(256) for _ in range(rnd.choice([0, 1, 2, 3, 4, 5, 31, 32, 33, 270])))
+        e = B.b64encode(raw).decode()
+        strs.add(e)
+        m = rnd.randrange(7)
+        if m == 0:
+            strs.add(e.rstrip('='))
+        elif m == 1 and e:
+            j = rnd.randrange(len(e)); strs.add(e[:j] + rnd.choice('=-_ \n*Az09+/') + e[j + 1:])
+        elif m == 2 and e:
+            strs.add(e[:-1])
+        elif m == 3:
+            strs.add(e + rnd.choice(['=', 'A', '==', 'AA==']))
+        elif m == 4 and len(e) > 4:
+            j = 4 * rnd.randrange(len(e) // 4); strs.add(e[:j] + e[j + 4:])
+        elif m == 5:
+            strs.add(B.urlsafe_b64encode(raw).decode())
+    strs = sorted(strs)
+    toks = [s_.encode('utf-8').hex() or 'e' for s_ in strs]
+    work = os.path.join(CACHE, 'work-%s-b64-%d' % (pid, os.getpid()))
+    os.makedirs(work, exist_ok=True)
+    try:
+        f = os.path.join(work, 'b64.ops')
+        open(f, 'w').write(''.join('b64 %s\n' % t for t in toks))
+        mo = subprocess.run([DRIVER, f], capture_output=True, text=True)
+        im = subprocess.run([UVH, 'b64'] + toks, capture_output=True, text=True)
+        mm = dict(l.split('=', 1) for l in mo.stdout.splitlines() if l.startswith('b64:'))
+        ii = dict(l.split('=', 1) for l in im.stdout.splitlines() if l.startswith('b64:'))
+        nok = 0
+        if len(ii) != len(set(toks)) or (model_ok and len(mm) != len(set(toks))):
+            a['extras'].append('base64 cross-check incomplete: %d model / %d library answers for %d strings' % (len(mm), len(ii), len(set(toks))))
+        for t, s_ in zip(toks, strs):
+            k = 'b64:' + t
+            if k in ii and ii[k].startswith('ok'):
+                nok += 1
+            if model_ok and k in mm and k in ii and mm[k] != ii[k]:
+                a['divergences'].append(('b64', 0, 'model base64 decoder on %r: %s' % (s_[:60], mm[k][:80]), 'library engine: %s' % ii[k][:80], ['b64 ' + t], []))
+        a['evaluations'] += len(toks)
+        a['dist'] = dict(a.get('dist', {}), base64_strings=len(toks), base64_accepted_by_the_library=nok)
+        # "never handed out" holds under I/O errors too: a signed patch is tampered with (same size / other size) and the
+        # query or launch start that discovers it has one of its file-system calls failing
+        ctx = Ctx(seed=seed)
+        try:
+            al = gen.Alphabet(ctx, key=KEY1)
+            header = ctx.header()
+            nf = 0
+            for pk in ('empty', 'good1'):
+                for dm in ('dS2', 'dT2'):
+                    for tgt in (['op nextnum'], ['op nextpath'], ['op start', 'op curnum']):
+                        ops = [al.init] + al.seq(PFX[pk]) + [op_update(ctx, 2, signed=True)] + al.seq([dm]) + tgt + ['op nextnum']
+                        ti = len(ops) - len(tgt)          # 1-based index of the first op of tgt
+                        name = 'c07f_%s_%s_%s' % (pk, dm, tgt[0].split()[1])
+                        for (k, lines, where) in fault_runs(header, name, ops, ti, work):
+                            nf += 1
+                            if lines is None:
+                                a['monitor_fail'].append((name, ti - 1, 'C07: with one file-system call failing (%s) the call did not return normally' % where, ops, header))
+                                continue
+                            for j in range(ti - 1, len(lines)):
+                                out = parse_line(lines[j])['out']
+                                if out in ('2', 'path:2'):
+                                    a['monitor_fail'].append((name, j, 'C07: patch 2 was modified after installation (%s) and is handed out (%s) when a file-system call of the query fails: %s' % (dm, out, where), ops, header))
+            a['evaluations'] += nf
+            a['dist']['tampered_artifact_x_failing_call_runs'] = nf
+        finally:
+            ctx.cleanup()
+        return a
+    finally:
+        shutil.rmtree(work, ignore_errors=True)
 
 
 def run_C14(pid, tier, seed, model_ok=True):
@@ -1874,13 +2087,11 @@ PROPS = {
                 assumptions=['zstd compress/decompress round trip is an oracle (hypothesis of C16_end_to_end); the suffix-array match search is covered only through wf_matches of what it emits']),
     'C03': mk(build_C03, [monitors.mon_C03, monitors.mon_C01], trig_life,
               'exhaustive depth-k continuations of 7 lifecycle prefixes over {query,start,ok,fail,restart,install 1/2/3,rollbacks,check,damage} + random walks (re-install of same number, multi-rollback, junk dirs); non-trivial = distinct (state with a selection or last good patch, state-changing op)'),
-    'C09': mk(build_C09, [monitors.mon_C09, monitors.mon_healthy], trig_life,
-              'exhaustive depth-k continuations of 7 lifecycle prefixes incl. lower-numbered installs and installs during boot + random walks; non-trivial as C03'),
+    'C09': dict(mons=[monitors.mon_C09, monitors.mon_healthy], run=run_C09),
     'C10': mk(build_C10, [monitors.mon_C10, monitors.mon_C19], trig_rb,
               'rollback lists (single, multiple, duplicates, empty, unknown numbers) through check and update entry points, exhaustive depth-k from 7 lifecycle states + random walks; non-trivial = distinct (state, call carrying a rollback list)'),
     'C17': dict(mons=[monitors.mon_C17, monitors.mon_C20], run=run_C17),
-    'C18': mk(build_C18, [monitors.mon_C18], trig_cur,
-              'exhaustive depth-k lifecycle histories with current/next queries interleaved + random walks; non-trivial = distinct (state, current-patch query answering non-zero)'),
+    'C18': dict(mons=[monitors.mon_C18], run=run_C18),
     'C19': mk(build_C19, [monitors.mon_C19], trig_life,
               'exhaustive depth-k lifecycle histories with junk directories and release changes + random walks; directory listing after every op; non-trivial as C03'),
     'C05': mk(build_C05, [monitors.mon_C05, monitors.mon_healthy], trig_update,
@@ -1888,9 +2099,8 @@ PROPS = {
               assumptions=['zstd decoder output (incl. partial output on failure) is an oracle computed by the zstd library outside the updater']),
     'C06': dict(mons=[], run=run_C06,
                 assumptions=['TCP/HTTP behaviour below reqwest (kernel, hyper) is exercised against a scripted local server, not modelled; the model sees a failed request as "no response"']),
-    'C07': mk(build_C07, [lambda c, o, s: monitors.mon_C01(c, o, s)], trig_handout,
-              '10 signature variants x 4 configured keys x lifecycle states; same-size/different-size tampering x continuations; exhaustive + random walks under a key; non-trivial = distinct (state, query/start with a selection)',
-              assumptions=['RSA verification (ring) and base64 are oracles; signature table built with openssl']),
+    'C07': dict(mons=[lambda c, o, s: monitors.mon_C01(c, o, s)], run=run_C07,
+              assumptions=['RSA verification (ring, DER parsing included) is an oracle on bytes; base64 is modelled (Signing.v) and cross-checked; signature table built with openssl']),
     'C08': mk(build_C08, [monitors.mon_C08, monitors.mon_C02], trig_relchange,
               'every depth-k old-release history x {upgrade, downgrade} x query/update tails; non-trivial = distinct (state, init) where the old release had patches, bans or queued events'),
     'C14': dict(mons=[monitors.mon_C14], run=run_C14),
